@@ -24,7 +24,17 @@ PointOf(D, n) == [j \in 1..D |-> Digit(n, j)]
 Sampled(D) == {[i \in 1..(D + 1) |-> IF i = 1 THEN Origin(D) ELSE PointOf(D, (b * i * i + 7 * i + b) % (3 ^ D))] :
                  b \in {x \in 1..(3 ^ D) : x % Stride = 1}}
 
-All == Tuples(1, G1) \cup Tuples(2, G2) \cup Tuples(3, G3) \cup Sampled(4) \cup Sampled(5)
+\* D = 4, 5: EXACTLY FLAT simplices in generic position on {0..3}^D: D vertices sampled by index arithmetic,
+\* the last one an affine combination of three of them (so the Gram determinant is exactly 0 although
+\* a floating-point elimination of it need not end in an exact zero pivot)
+Digit4(n, k) == (n \div (4 ^ (k - 1))) % 4
+PointOf4(D, n) == [j \in 1..D |-> Digit4(n, j)]
+Flat(D) == {LET t == [i \in 1..D |-> IF i = 1 THEN Origin(D) ELSE PointOf4(D, (b * i * i + 11 * i + 3 * b) % (4 ^ D))]
+                u == IF b % 2 = 0 THEN 1 ELSE 4          \* which third vertex enters the combination
+            IN  Append(t, [j \in 1..D |-> t[2][j] + t[3][j] - t[u][j]]) :
+              b \in {x \in 1..(4 ^ D) : x % Stride = 1}}
+
+All == Tuples(1, G1) \cup Tuples(2, G2) \cup Tuples(3, G3) \cup Sampled(4) \cup Sampled(5) \cup Flat(4) \cup Flat(5)
 
 Next == /\ ~done
         /\ \A t \in All : PrintT(<<"VEC", ToJson(Ingredients(t))>>)
